@@ -66,3 +66,12 @@ func init() {
 		"E2 importer stage (node level, 'imported' and 'shrunk' clauses): after an import the repaired hosts lose power at their first SaveRaftState, right after the first start, and after a second restart; they must restart and still hold the exported state (an on-disk state machine's imported snapshot is shrunk once recovered: its data must have been synced first)",
 	}, Stage{Engine: "clusterrun", Mode: "importer", BatchesQ: 12, BatchesT: 16, Par: 12, TimeoutQ: 900, TimeoutT: 3600})
 }
+
+func init() {
+	storm := Stage{Engine: "clusterrun", Mode: "readstorm", Race: true, BatchesQ: 8, BatchesT: 16, Par: 8, TimeoutQ: 900, TimeoutT: 3600}
+	note := []string{
+		"E2 readstorm stage: the node-level half of the ReadIndex path (request.go, node.go: batching of read requests, contexts, release when the local applied index reaches the read index) on real NodeHosts with one slowly applying follower under a storm of reads; decided by the exact history oracle",
+	}
+	addStages("C06", "exploration", note, storm)
+	addStages("C01", "exploration", note, storm)
+}
